@@ -30,6 +30,7 @@ MANIFEST = {
             "harness snapshot (content digest of sections, labels, fixups, relocations, nodes).",
 }
 MODS = ["AsmjitVerif.Props.C14"]
+A64_NAMES = {}      # instruction id -> name (filled from the typed overloads of a64emitter.h on every run)
 INVALID = 0xFFFFFFFF
 
 
@@ -54,6 +55,7 @@ class Gen:
         self.corpus = corpus          # [(inst, kinds, ops, ctx)] of calls the real encoder accepted in the probe pass
         self.last_meta = None
         self.a64 = arch == "a64"
+        self.byelem = sorted({f[0] for f in forms if f[1] in A64_BY_ELEMENT_H_RM4 and f[2] == ("Vec", "Vec", "Vec")}) if self.a64 else []
         self.labels = 0
         self.sections = 1
 
@@ -198,7 +200,16 @@ class Gen:
             extra = r.choice(("16.%d" % r.randrange(8), "16.%d" % r.randrange(8), "6.1", "5.1", "%d.%d" % (r.randrange(32), r.randrange(40))))
         if r.random() < 0.2:
             cmt = 1
-        if stream < 0.2 and self.a64:
+        if self.a64 and self.byelem and r.random() < 0.12:
+            # vector x indexed-element forms with half-precision/halfword elements: the indexed register only has a 4-bit field
+            inst = r.choice(self.byelem)
+            t = r.choice((11, 11, 10))
+            idx = r.randrange(8) if r.random() < 0.9 else r.randrange(16)
+            ops = ["v%d.%d.2.-1" % (t, r.randrange(32)), "v%d.%d.2.-1" % (t, r.randrange(32)),
+                   "v11.%d.%d.%d" % (r.randrange(32), 2 if r.random() < 0.85 else 3, idx)]
+            if r.random() < 0.3:     # widening forms: 4s destination
+                ops[0] = "v11.%d.3.-1" % r.randrange(32)
+        elif stream < 0.2 and self.a64:
             # AArch64 has no operand validator: operand kinds (and register types) are kept, every other field is perturbed
             inst, name, kinds = r.choice(self.forms)
             ctx = self.ctx()
@@ -396,9 +407,22 @@ def label_refs(op_words, a64):
     return refs
 
 
-def phys_ids(op_words):
-    """AArch64: (register id as encoded, 31) of every register named by the operands; zr (63) is encoded as 31"""
+# Arm ARM, "vector x indexed element" encodings whose element size is H: the index is H:L:M, so the M bit is not available for the
+# register number and <Vm> is restricted to V0-V15 (FCMLA by element and the dot products keep the full 5-bit M:Rm)
+A64_BY_ELEMENT_H_RM4 = {"fmla", "fmls", "fmul", "fmulx", "mla", "mls", "mul", "sqdmulh", "sqrdmulh", "sqrdmlah", "sqrdmlsh",
+                        "smlal", "smlal2", "smlsl", "smlsl2", "smull", "smull2", "umlal", "umlal2", "umlsl", "umlsl2", "umull", "umull2",
+                        "sqdmlal", "sqdmlal2", "sqdmlsl", "sqdmlsl2", "sqdmull", "sqdmull2", "fmlal", "fmlal2", "fmlsl", "fmlsl2"}
+
+
+def phys_ids(op_words, inst_name=None):
+    """AArch64: (register id as encoded, largest id the field holds) of every register named by the operands; zr (63) is encoded as 31;
+    the indexed H operand of the by-element multiplies has a 4-bit register field"""
     out = []
+    toks = op_words[5:]
+    if inst_name in A64_BY_ELEMENT_H_RM4 and len(toks) == 3 and all(t[0] == "v" for t in toks):
+        p = toks[2][1:].split(".")
+        if int(p[2]) == 2 and int(p[3]) >= 0 and int(p[1]) < 256:
+            out.append((int(p[1]), 15))
 
     def add(t, i):
         if i >= 256:
@@ -443,7 +467,7 @@ def monitor_line(sess_hdr, op, d):
     if w[0] == "emit":
         refs = label_refs(w, arch == "a64")
         if arch == "a64" and emitter == "asm":
-            phys = phys_ids(w)
+            phys = phys_ids(w, A64_NAMES.get(int(w[1]) & 0xFFFF))
     return "mon %s %d %s %d %s %s %s %s %s %s %s %s %s %s ; %s ; %s ; %s ; %s ; %s" % (
         kind, 1 if emitter == "asm" else 0, handler, d["ret"], d["handled"], d["thrown"], d["os"][0], d["os"][1], d["os"][2], d["os"][3],
         d["pre"][0], d["pre"][1], d["pre"][2], d["pre"][3], d["B"], d["A"], d["S"], ",".join(map(str, refs)) or "-", ",".join("%d:%d" % p for p in phys) or "-")
@@ -664,6 +688,7 @@ def run(res):
         names = gen_c14.error_enum(R)
         vlib.gen_write("AsmjitVerif/Gen/ErrorCodes.lean", gen_c14.render_error_codes(names))
         forms_by_arch = {a: gen_c14.forms(R, a) for a in ("x86", "a64")}
+        A64_NAMES.update({f[0]: f[1] for f in forms_by_arch["a64"][0]})
     except gen_c14.TranslateError as e:
         res.violation("translator tools/gen_c14.py no longer understands the sources: %s" % e, {"unchecked": str(e)}, False, key="obligation")
         return
